@@ -104,6 +104,11 @@ type internalStruct struct {
 	Type      string          `json:",omitempty"`
 	JSONValue json.RawMessage `json:",omitempty"`
 
+	// pointer to an interface-typed variable: Type is the registered interface
+	// type and InterfaceValue the value it holds (absent: the interface is nil)
+	IsInterface    bool            `json:",omitempty"`
+	InterfaceValue *internalStruct `json:",omitempty"`
+
 	// struct type
 	StructType string `json:",omitempty"`
 	// map key type
@@ -254,6 +259,22 @@ func internalMarshal(v any) (*internalStruct, error) {
 
 		return ret, nil
 
+	case reflect.Interface:
+		// only reachable through a pointer: keep the dynamic type of the value
+		// the interface holds instead of flattening it to plain JSON
+		key, ok := rm[rt]
+		if !ok {
+			return nil, fmt.Errorf("unknown type: %v", rt)
+		}
+		ret.Type = key
+		ret.IsInterface = true
+		internalValue, err := internalMarshal(rv.Interface())
+		if err != nil {
+			return nil, err
+		}
+		ret.InterfaceValue = internalValue
+		return ret, nil
+
 	default:
 		// 处理基本类型
 		key, ok := rm[rv.Type()]
@@ -274,6 +295,10 @@ func internalMarshal(v any) (*internalStruct, error) {
 func internalUnmarshal(v *internalStruct) (any, error) {
 	if v == nil {
 		return nil, nil
+	}
+
+	if v.IsInterface {
+		return unmarshalInterfacePointer(v)
 	}
 
 	if len(v.Type) != 0 {
@@ -421,4 +446,29 @@ func createValueFromType(t reflect.Type) (value reflect.Value, derefValue reflec
 	}
 
 	return value, derefValue
+}
+
+// unmarshalInterfacePointer re-creates a pointer (chain) to an interface-typed
+// variable and the value that variable holds.
+func unmarshalInterfacePointer(v *internalStruct) (any, error) {
+	t, ok := m[v.Type]
+	if !ok {
+		return nil, fmt.Errorf("unknown type key: %v", v.Type)
+	}
+	if t.Kind() != reflect.Interface || v.PointerNum == 0 {
+		return nil, fmt.Errorf("unmarshal type[%s] fail: not a pointer to an interface", v.Type)
+	}
+	result, dResult := createValueFromType(resolvePointerNum(v.PointerNum, t))
+	value, err := internalUnmarshal(v.InterfaceValue)
+	if err != nil {
+		return nil, fmt.Errorf("unmarshal type[%s] fail: %v", v.Type, err)
+	}
+	if value != nil {
+		rValue := reflect.ValueOf(value)
+		if !rValue.Type().AssignableTo(t) {
+			return nil, fmt.Errorf("unmarshal type[%s] fail: value of type %v is not assignable", v.Type, rValue.Type())
+		}
+		dResult.Set(rValue)
+	}
+	return result.Interface(), nil
 }
